@@ -7,6 +7,7 @@
 From RichModel Require Import Prelude Color SpecColor ColorFloat.
 From RichGen Require Import Palettes.
 From RichProofs Require Import ColorP ColorP2.
+From RichProofs.bridge Require BridgeColor.   (* tie 1 (T2): Color.get_ansi_codes regenerated from rich/color.py *)
 
 (* (1) in gamut: no exception, and the result is a colour of the target system
        (standard / legacy Windows: one of 16 indices of that kind; 256: an index below 256) *)
